@@ -16,6 +16,10 @@
 (*   alg-*              the code satisfies Ref but not the Alg transcription                        (drift)         *)
 EXTENDS Dump, Json, IOUtils, TLCExt, SequencesExt
 
+\* round 4: Trace_Dump_json.cfg / Trace_Dump_jsonnet.cfg validate the observations made with ArgumentParser(parser_mode=...)
+\* (CONSTANT ParserMode <- ModeJson / ModeJsonnet)
+ModeJson == "json"
+ModeJsonnet == "jsonnet"
 Data    == JsonDeserialize(IOEnv.TRACE_FILE)
 Shapes  == Data.shapes
 Accepts == Data.accepts
@@ -35,7 +39,7 @@ JoinNames(s) == IF s = << >> THEN "" ELSE IF Len(s) = 1 THEN s[1] ELSE s[1] \o "
 \* the names of a set of deviation families, in a fixed order, joined with "+"
 Order == <<"decimal-serialised-as-float", "json-nonfinite-float", "json-raw-line-break", "json-unescaped-nonprintable-rejected", "loader-float-dot-underscore",
            "loader-float-without-dot-or-signed-exponent", "nel-folded-in-single-quoted-scalar",
-           "union-enum-member-serialises-anything",
+           "union-enum-member-serialises-anything", "jsonnet-integral-float-read-as-int", "jsonnet-int-through-double", "multifile-subconfig-not-serialised",
            "skip-default-equal-but-other-type", "skip-default-inside-dict-value", "skip-default-required-subcommand-raises", "subcommand-selector-not-dumped">>
 Names(S) == JoinNames(SelectSeq(Order, LAMBDA a : a \in S))
 RECURSIVE HasSet(_)
@@ -81,14 +85,17 @@ Outcome(r, v) == IF ~IsErr(r) /\ Same(r, v) THEN "same" ELSE "failed"
 CheckLeaf(k) ==
   LET o    == Leafs[k]
       viaRuyaml == o.route = "print/comments"                                \* the text was rewritten by a second yaml library: not modelled
-      alg  == ReparseLeafSN(o.t, o.v, o.fmt, FALSE, o.sn)
-      hz   == LeafHazards(o.t, o.v, o.fmt)
+      multi == o.route \in {"savemulti/yaml", "savemulti/json"}              \* round 4: multi-file save, the value went to its own file UNSERIALISED
+      alg  == IF multi THEN ReparseMultiLeaf(o.t, o.v, o.fmt, FALSE) ELSE ReparseLeafSN(o.t, o.v, o.fmt, FALSE, o.sn)
+      hz   == IF multi THEN MultiHazards(o.t, o.v, o.fmt) ELSE LeafHazards(o.t, o.v, o.fmt)
       tree == SerializeLeafSN(o.t, o.v, FALSE, o.sn)
       \* skip_none loses the None fields of dataclass values by design: what must come back is what the ideal pipeline gives
       want == IF o.sn THEN ReparseLeafSN(o.t, o.v, o.fmt, TRUE, TRUE) ELSE o.v
-      vhz  == ValueHazards("yaml", o.v) \cup ValueHazards(o.fmt, o.v)      \* nested dataclass values travel through yaml whatever the format
+      vhz  == IF ParserMode = "yaml" THEN ValueHazards("yaml", o.v) \cup ValueHazards(o.fmt, o.v)      \* nested dataclass values travel through yaml whatever the format
+              ELSE IF ParserMode = "json" THEN ValueFamilies(o.v)                                 \* json.loads inverts json.dumps: no scalar-level family is excused
+              ELSE LET s == SerializeLeafSN(o.t, o.v, TRUE, o.sn) IN ValueFamilies(o.v) \cup (IF Bad(s) THEN {} ELSE Hazards(o.fmt, s) \cup Hazards("json", s))   \* jsonnet: the families of the serialised tree
   IN \* ---- Ref: the re-parsed value is the value, value for value and type for type
-     /\ (Same(o.re, want) \/ (o.sn /\ IsUnsure(want) /\ ~IsErr(o.re)))
+     /\ (Same(o.re, want) \/ (o.sn /\ IsUnsure(want) /\ ~IsErr(o.re)) \/ (o.sn /\ Same(o.re, o.v)))      \* (the identity is always right: skip_none lost nothing)
         \/ Say("leaf", k, IF hz # {} /\ ~IsUnsure(alg) /\ Outcome(o.re, want) = Outcome(alg, want) THEN "ref-dev:" \o Names(hz)
                           ELSE IF viaRuyaml /\ SchemaDependent(o.v) THEN "ref-dev:yaml-comments-schema-dependent-scalar"
                           ELSE IF IsUnsure(alg) /\ vhz # {} THEN "ref-dev:" \o Names(vhz)
